@@ -30,8 +30,20 @@ LEVEL_NOTE = ("PARTIAL by nature: the private-key file round trip (PEM serialisa
               "model.  A pre-existing target keeps its permissions (0644 stays 0644 and then holds the key): proved and "
               "observed; not a violation of the property's wording (not newly created).  write_private_key_file(password='') "
               "raises ValueError after truncating the target (observed, noted).  Ed25519Key cannot write private keys.  "
-              "Trusted: Coq kernel + vm_compute, the hand-written model, this harness.")
-TECHNIQUE = "Coq proof over C39 codec + permission-table model + vm_compute differential correspondence + real-key oracle"
+              "The key names, RSAKey.HASHES, curve names / field sizes (gen/c35.py) and the os.open mode (gen/c36.py, which also pins by AST "
+              "that every class's write_private_key_file is one call of PKey._write_private_key_file, whose only os.open has flags "
+              "O_WRONLY|O_TRUNC|O_CREAT, and that the four key modules contain no other file-creating call) are regenerated from "
+              "the source every run, fail-closed.  Trusted: Coq kernel + vm_compute, the hand-written model, the translators, this harness.")
+TECHNIQUE = "Coq proof over C39 codec + permission-table model with AST-translated constants (gen/c35.py, gen/c36.py) + vm_compute differential correspondence + real-key oracle"
+
+
+def mm(ctx, *a, **k):
+    """model evaluation guarded: a model / translator failure is reported, it never hides the oracle's findings"""
+    try:
+        return ctx.model_mismatches(*a, **k)
+    except Exception as e:   # noqa
+        ctx.disagree("model evaluation of %s failed: %s" % (a[0], str(e)[-400:]))
+        return []
 
 BUNDLED = [
     ("tests/_support/rsa.key", "RSAKey", None, "tests/_support/rsa.key-cert.pub"),
@@ -213,7 +225,7 @@ def run(ctx):
     ctx.trusted += ["cryptography PEM serialisation / encryption, RSA number and EC point validation, nacl key length check (oracles)",
                     "os.open / umask semantics of the host file system are compared with the permission-table model on the generated cases only"]
     ctx.assumptions += ["C36_pub_roundtrip assumes ASCII names decode as UTF-8 and the library accepts the key's own numbers / point"]
-    ctx.prove()
+    ctx.prove(gens=["c35", "c36"])
     keys = make_keys(ctx)
     as_cases, dec_cases, wr_cases = [], [], []
     tmp = tempfile.mkdtemp(prefix="verif-c36-")
@@ -377,13 +389,13 @@ def run(ctx):
     finally:
         os.umask(old_umask)
         shutil.rmtree(tmp, ignore_errors=True)
-    bad = ctx.model_mismatches("run_asbytes", "(Z * Z * Z * Z * list Z)", [(a, b) for a, b, _ in as_cases])
+    bad = mm(ctx, "run_asbytes", "(Z * Z * Z * Z * list Z)", [(a, b) for a, b, _ in as_cases])
     for i in bad[:3]:
         ctx.disagree("asbytes() differs from the model", case={"key": as_cases[i][2]}, impl=as_cases[i][1][:40])
-    bad = ctx.model_mismatches("run_from_blob", "(Z * list Z * bool * bool)", [(a, b) for a, b, _ in dec_cases], shard=100)
+    bad = mm(ctx, "run_from_blob", "(Z * list Z * bool * bool)", [(a, b) for a, b, _ in dec_cases], shard=100)
     for i in bad[:3]:
         ctx.disagree("the data= constructor differs from the model decoder", case=dec_cases[i][2], impl=dec_cases[i][1][:40])
-    bad = ctx.model_mismatches("run_write", "(Z * Z)", [(a, b) for a, b, _ in wr_cases])
+    bad = mm(ctx, "run_write", "(Z * Z)", [(a, b) for a, b, _ in wr_cases])
     for i in bad[:3]:
         ctx.disagree("write_private_key_file's resulting mode differs from the permission-table model", case=wr_cases[i][2],
                      impl=[oct(wr_cases[i][1][0]), wr_cases[i][1][1]])
